@@ -193,19 +193,46 @@ end MM
 
 namespace MM
 
+/-- the deletion loop leaves atoms and context alone; on the heap it only drops the members' one-shot pre-selections
+    (`to_add_atoms`, `to_delete_label`): kinds, label arrays and default labels are what they were -/
 theorem compExchDelLoop_state (rs : List Nat) (labs : List Int) (idx : List Nat) (s : State) :
     (compExchDelLoop rs labs idx s).2.2.atoms = s.atoms ∧ (compExchDelLoop rs labs idx s).2.2.ctx = s.ctx ∧
-    (compExchDelLoop rs labs idx s).2.2.heap = s.heap := by
+    HeapStatic s.heap (compExchDelLoop rs labs idx s).2.2.heap := by
+  induction rs generalizing labs idx s with
+  | nil => exact ⟨rfl, rfl, HeapStatic.refl _⟩
+  | cons r rs ih =>
+    rw [compExchDelLoop_cons]
+    have hcl : HeapStatic s.heap (clearExch s r).heap := clearExch_heap s r
+    split
+    · obtain ⟨h1, h2, h3⟩ := ih labs idx (clearExch s r)
+      exact ⟨h1, h2, hcl.trans h3⟩
+    · obtain ⟨h1, h2, h3⟩ := ih (labs ++ [(choice (setdiff (uniqueLabels (s.obj r).labels) labs) 0 s.inp).1])
+        (idx ++ whereEq (s.obj r).labels (choice (setdiff (uniqueLabels (s.obj r).labels) labs) 0 s.inp).1)
+        { clearExch s r with inp := (choice (setdiff (uniqueLabels (s.obj r).labels) labs) 0 s.inp).2 }
+      exact ⟨h1, h2, hcl.trans h3⟩
+
+/-- every object of the heap after the deletion loop: a member has lost both pre-selections, nothing else changed -/
+theorem compExchDelLoop_obj (rs : List Nat) (labs : List Int) (idx : List Nat) (s : State) (r' : Nat) :
+    (compExchDelLoop rs labs idx s).2.2.obj r' =
+      if r' ∈ rs then { s.obj r' with toAdd := none, toDelete := none } else s.obj r' := by
   induction rs generalizing labs idx s with
   | nil => simp [compExchDelLoop]
   | cons r rs ih =>
-    simp only [compExchDelLoop]
+    rw [compExchDelLoop_cons]
+    have key : ∀ (labs' : List Int) (idx' : List Nat) (i : Inputs),
+        (compExchDelLoop rs labs' idx' { clearExch s r with inp := i }).2.2.obj r' =
+          if r' ∈ r :: rs then { s.obj r' with toAdd := none, toDelete := none } else s.obj r' := by
+      intro labs' idx' i
+      rw [ih labs' idx' { clearExch s r with inp := i }]
+      have e : ({ clearExch s r with inp := i } : State).obj r' = (clearExch s r).obj r' := rfl
+      rw [e, clearExch_obj]
+      by_cases h1 : r' = r
+      · subst h1
+        by_cases h2 : r' ∈ rs <;> simp [h2]
+      · by_cases h2 : r' ∈ rs <;> simp [h1, h2]
     split
-    · exact ih _ _ _
-    · rcases hch : choice (setdiff (uniqueLabels (s.obj r).labels) labs) 0 s.inp with ⟨l, i⟩
-      simp only []
-      have := ih (labs ++ [l]) (idx ++ whereEq (s.obj r).labels l) { s with inp := i }
-      exact this
+    · exact key labs idx s.inp
+    · exact key _ _ _
 
 /-- the indices a composite deletion collects are pairwise distinct and valid when all members share one labelling -/
 theorem compExchDelLoop_nodup (L : List Int) (rs : List Nat) (labs : List Int) (idx : List Nat) (s : State)
@@ -220,9 +247,13 @@ theorem compExchDelLoop_nodup (L : List Int) (rs : List Nat) (labs : List Int) (
       exact (List.getElem?_eq_some_iff.mp hl).1⟩
   | cons r rs ih =>
     have hLr : (s.obj r).labels = L := hL r (by simp)
-    simp only [compExchDelLoop]
+    have hL' : ∀ (i : Inputs), ∀ r' ∈ rs, (({ clearExch s r with inp := i } : State).obj r').labels = L := by
+      intro i r' h'
+      have e : ({ clearExch s r with inp := i } : State).obj r' = (clearExch s r).obj r' := rfl
+      rw [e, clearExch_obj_labels]; exact hL r' (by simp [h'])
+    rw [compExchDelLoop_cons]
     split
-    · exact ih labs idx s (fun r' h' => hL r' (by simp [h'])) hn hlab
+    · exact ih labs idx (clearExch s r) (hL' s.inp) hn hlab
     · rename_i hcand
       have hne : setdiff (uniqueLabels (s.obj r).labels) labs ≠ [] := by
         intro h; rw [h] at hcand; simp at hcand
@@ -233,8 +264,8 @@ theorem compExchDelLoop_nodup (L : List Int) (rs : List Nat) (labs : List Int) (
       have hlnot : l ∉ labs := by
         simp only [setdiff, List.mem_filter] at hmem
         simpa using hmem.2
-      apply ih (labs ++ [l]) (idx ++ whereEq (s.obj r).labels l) { s with inp := i }
-      · intro r' h'; exact hL r' (by simp [h'])
+      apply ih (labs ++ [l]) (idx ++ whereEq (s.obj r).labels l) { clearExch s r with inp := i }
+      · exact hL' i
       · rw [List.nodup_append]
         refine ⟨hn, whereEq_nodup _ _, ?_⟩
         intro a ha b hb hab
